@@ -7,9 +7,24 @@
 //      Tolerances (stated, generous):  CTOL * n * eps * (||H||_F + |s|) + n * 16 * DBL_MIN  for matrix identities (the last
 //      term is the gradual-underflow floor), CTOL * n * eps for Q'Q - I, CTOL * n * eps * ||Y|| for the apply_* products,
 //      CTOL * n * eps * ((||H||_F + |s|)^2 + |t|) for the component of (H^2 - sH + tI)e1 orthogonal to Q e1.   CTOL = 64.
+//  (c) argument-buffer independence (exact, bit for bit, every case, float/double/long double):
+//      * dest states: matrix_QtHQ(dest) / `w = matrix_R()` with dest default-constructed, of a wrong (larger, smaller) size, of the
+//        RIGHT size pre-filled with NaN / huge finite / mixed garbage (off-band positions included), holding its own previous
+//        result, and ONE work matrix passed through the three classes in sequence (as the solvers' restart loops do) must give the
+//        bits obtained with a fresh destination;
+//      * views: every GenericMatrix (= Eigen::Ref<Matrix>) apply_* with Y a block of a larger matrix (topRows, leftCols, middle,
+//        bottom-right corner), an Eigen::Map with outer stride > rows (tight buffer: an overrun is an ASan error), and an explicit
+//        Ref of those, must give the bits of the owning-matrix result and leave every surrounding entry (distinct canary values)
+//        untouched;
+//      * object reuse: compute(H1, s1); queries; compute(H, s) on ONE object (H1 of the same / a smaller / a larger size, or a
+//        preallocating constructor of another size) must answer every query with the bits of a fresh object; for a fraction of
+//        the double cases the same history is a correspondence request (`hqrh|tqrh|dsqrh n1 H1 shifts1 <plain request>`), which the
+//        driver answers by running the model's `recompute` on the model object of (H1, s1).
 #include "common.h"
 #include <Eigen/Core>
 #include <Eigen/Eigenvalues>
+#include <memory>
+#include <type_traits>
 #include <Spectra/LinAlg/UpperHessenbergQR.h>
 #include <Spectra/LinAlg/DoubleShiftQR.h>
 using namespace vh;
@@ -51,8 +66,8 @@ struct Case {
         if (cls == "dsqr") r += " " + str(dbits(t));
         return r + " " + bits(P);
     }
-    std::string replay() const {
-        return "{\"class\":\"" + cls + "\",\"scalar\":\"" + scalar + "\",\"pattern\":\"" + pat + "\",\"n\":" + str(n) + ",\"req\":\"" + request() + "\"}";
+    std::string replay(const std::string& extra = "") const {   // extra: further `"key":"value",` pairs (which buffer state / view / history failed)
+        return "{\"class\":\"" + cls + "\",\"scalar\":\"" + scalar + "\",\"pattern\":\"" + pat + "\",\"n\":" + str(n) + "," + extra + "\"req\":\"" + request() + "\"}";
     }
 };
 
@@ -76,6 +91,114 @@ template <> struct Bits<float> { template <class M> static std::string of(const 
     static std::string one(float x) { return str(fbits(x)); } static const char* suffix() { return "32"; } };
 template <> struct Bits<long double> { template <class M> static std::string of(const M&) { return ""; } static std::string one(long double) { return ""; } static const char* suffix() { return "L"; } };
 
+// ---------------------------------------------------------------- argument buffers: destination states, views, object reuse
+template <class S> static bool same_elem(S a, S b) { if (std::isnan(a) || std::isnan(b)) return std::isnan(a) && std::isnan(b); return a == b && std::signbit(a) == std::signbit(b); }
+template <class A, class B> static bool same_bits(const A& a, const B& b) {
+    if (a.rows() != b.rows() || a.cols() != b.cols()) return false;
+    for (Eigen::Index j = 0; j < a.cols(); j++) for (Eigen::Index i = 0; i < a.rows(); i++) if (!same_elem(a(i, j), b(i, j))) return false;
+    return true;
+}
+static std::string kv(const std::string& k, const std::string& v) { return "\"" + k + "\":\"" + v + "\","; }
+// every failure is counted (`bufferfail_<class>-<sig>`); at most 12 per (class, scalar, signature, state/view/history) are written with
+// their replay (a broken helper fails on every case: thousands of identical lines carry no further information)
+static void buf_fail(const Case& c, const std::string& sig, const std::string& what, const std::string& extra) {
+    static std::map<std::string, int> written;
+    OUT->count("bufferfail_" + c.cls + "-" + sig);
+    if (++written[c.cls + c.scalar + sig + extra] > 12) return;
+    OUT->fail(c.cls + "-" + sig, c.cls + "<" + c.scalar + "> n=" + str(c.n) + " pattern=" + c.pat + ": " + what, c.replay(extra));
+}
+// the generator of everything the buffer checks add to a case: a function of the case alone, so that a replay repeats it
+static Rng buf_rng(const Case& c, int stream) { return Rng(0xC08B, (uint64_t) stream * 1000 + c.n, dbits(c.s) ^ (c.H.size() ? dbits(c.H(0, 0)) * 3 : 0) ^ (c.P.size() ? dbits(c.P(0, 0)) * 7 : 0)); }
+// what a buffer may hold before the call: 0 = quiet NaN everywhere, 1 = huge finite (+-max/4 .. max/8), 2 = mixture of NaN, huge, O(1), denormal
+template <class M> static void fill_garbage(M& m, int kind, Rng& g) {
+    typedef typename M::Scalar S; const S big = std::numeric_limits<S>::max() / 4, nan = std::numeric_limits<S>::quiet_NaN();
+    for (Eigen::Index j = 0; j < m.cols(); j++) for (Eigen::Index i = 0; i < m.rows(); i++) {
+        const int k = kind == 2 ? g.range(0, 3) : kind;
+        m(i, j) = k == 0 ? nan : k == 1 ? (g.coin() ? big : -big) * (S) (0.5 + 0.5 * g.unit()) : k == 2 ? (S) (3 * g.sym()) : std::numeric_limits<S>::denorm_min() * (S) g.range(1, 1000);
+    }
+}
+
+// `call(dest)` (matrix_QtHQ(dest), dest = matrix_R()) into destinations in every prior state: same bits as `ref` (fresh destination)
+template <class S, class F> static void dest_states(const Case& c, const std::string& method, F call, const Eigen::Matrix<S, Eigen::Dynamic, Eigen::Dynamic>& ref, Rng& g) {
+    typedef Eigen::Matrix<S, Eigen::Dynamic, Eigen::Dynamic> SMat; const int n = c.n;
+    auto one = [&](SMat& d, const char* state) {
+        call(d); OUT->count("oracle_dest-state"); OUT->count(std::string("dest_") + method + "_" + state);
+        if (!same_bits(d, ref)) buf_fail(c, "dest-state", method + " into a destination that was " + state + " differs from the result with a fresh destination: the output depends on the prior size/contents of its argument", kv("method", method) + kv("dest", state));
+    };
+    { SMat d; one(d, "empty"); }
+    { SMat d(n + 2, n + 1); fill_garbage(d, 2, g); one(d, "larger"); }
+    { SMat d(n - 1, n - 1); fill_garbage(d, 2, g); one(d, "smaller"); }
+    { SMat d(n, n); fill_garbage(d, 0, g); one(d, "right-size-nan"); }
+    { SMat d(n, n); fill_garbage(d, 1, g); one(d, "right-size-huge"); }
+    { SMat d(n, n); fill_garbage(d, 2, g); one(d, "right-size-mixed"); one(d, "right-size-own-result"); }
+}
+// ONE work matrix handed to matrix_QtHQ of the three classes in sequence (GenEigsBase::restart alternates DoubleShiftQR and
+// UpperHessenbergQR, the Lanczos loop reuses its matrix): the class under test must still return its fresh-destination bits
+template <class S, class F> static void cross_class(const Case& c, F call, const Eigen::Matrix<S, Eigen::Dynamic, Eigen::Dynamic>& ref, Rng& g) {
+    typedef Eigen::Matrix<S, Eigen::Dynamic, Eigen::Dynamic> SMat; const int n = c.n;
+    if (n < 2) return;
+    SMat G(n, n); for (int j = 0; j < n; j++) for (int i = 0; i < n; i++) G(i, j) = (S) (2 * g.sym());
+    SMat Gs = G + G.transpose();
+    Spectra::UpperHessenbergQR<S> ah(G, (S) 0.37); Spectra::TridiagQR<S> at(Gs, (S) -0.21);
+    SMat work;
+    auto chk = [&](const char* seq) {
+        call(work); OUT->count("oracle_dest-state"); OUT->count(std::string("dest_matrix_QtHQ_") + seq);
+        if (!same_bits(work, ref)) buf_fail(c, "dest-state", std::string("matrix_QtHQ into ONE work matrix reused across the classes (") + seq + ") differs from the result with a fresh destination", kv("method", "matrix_QtHQ") + kv("dest", seq));
+    };
+    ah.matrix_QtHQ(work); chk("work-after-hqr");
+    at.matrix_QtHQ(work); chk("work-after-tqr");
+    if (n >= 3) { Spectra::DoubleShiftQR<S> ad(G, (S) 0.3, (S) 0.7); ad.matrix_QtHQ(work); chk("work-after-dsqr");
+                  at.matrix_QtHQ(work); ad.matrix_QtHQ(work); ah.matrix_QtHQ(work); chk("work-after-tqr-dsqr-hqr"); }
+}
+
+// `call(Y)` (an in-place apply_* taking GenericMatrix = Eigen::Ref<Matrix>) with Y a VIEW: bits of `ref` (owning-matrix result for
+// the same input Y0) inside the view, every entry of the parent outside the view untouched
+template <class S, class F> static void view_states(const Case& c, const std::string& method, F call, const Eigen::Matrix<S, Eigen::Dynamic, Eigen::Dynamic>& Y0,
+                                                    const Eigen::Matrix<S, Eigen::Dynamic, Eigen::Dynamic>& ref, Rng& g) {
+    typedef Eigen::Matrix<S, Eigen::Dynamic, Eigen::Dynamic> SMat;
+    const Eigen::Index r = Y0.rows(), k = Y0.cols();
+    struct V { const char* name; int pt, pb, pl, pr; };
+    const int a = g.range(1, 3), b = g.range(1, 4);
+    const V views[] = {{"topRows", 0, b, 0, 0}, {"leftCols", 0, 0, 0, a}, {"middle-block", a, b, b, a}, {"bottomRightCorner", b, 0, a, 0}};
+    auto canary = [](Eigen::Index i, Eigen::Index j) { return (S) (1000 + 37 * i + 101 * j); };
+    auto report = [&](const std::string& name, bool in_ok, bool out_ok, Eigen::Index stride) {
+        OUT->count("oracle_view"); OUT->count("view_" + method + "_" + name);
+        if (in_ok && out_ok) return;
+        buf_fail(c, "view-" + method, method + "(Y) with Y a " + name + " view (" + str(r) + " x " + str(k) + ", outer stride " + str(stride) + ")"
+                 + (in_ok ? "" : " differs from the owning-matrix result") + (out_ok ? "" : (in_ok ? " overwrote" : " and overwrote") + std::string(" entries of the parent outside the view")),
+                 kv("method", method) + kv("view", name) + kv("stride", stride == r ? "equal" : "larger"));
+    };
+    for (const V& v : views) for (int viaref = 0; viaref < 2; viaref++) {
+        SMat Big(r + v.pt + v.pb, k + v.pl + v.pr);
+        for (Eigen::Index j = 0; j < Big.cols(); j++) for (Eigen::Index i = 0; i < Big.rows(); i++) Big(i, j) = canary(i, j);
+        Big.block(v.pt, v.pl, r, k) = Y0;
+        if (viaref) { Eigen::Ref<SMat> R(Big.block(v.pt, v.pl, r, k)); call(R); } else call(Big.block(v.pt, v.pl, r, k));
+        bool in_ok = same_bits(Big.block(v.pt, v.pl, r, k), ref), out_ok = true;
+        for (Eigen::Index j = 0; j < Big.cols(); j++) for (Eigen::Index i = 0; i < Big.rows(); i++) {
+            const bool inside = i >= v.pt && i < v.pt + r && j >= v.pl && j < v.pl + k;
+            if (!inside && !same_elem(Big(i, j), canary(i, j))) out_ok = false;
+        }
+        report(std::string(v.name) + (viaref ? "-Ref" : ""), in_ok, out_ok, Big.rows());
+    }
+    {   // Eigen::Map with outer stride > rows over a buffer that ends with the view (an overrun is an ASan error)
+        const Eigen::Index os = r + g.range(1, 5), off = g.range(0, 2), len = off + (k - 1) * os + r;
+        std::vector<S> buf((size_t) len); for (Eigen::Index i = 0; i < len; i++) buf[(size_t) i] = (S) (5000 + 3 * i);
+        Eigen::Map<SMat, 0, Eigen::OuterStride<>> M(buf.data() + off, r, k, Eigen::OuterStride<>(os));
+        M = Y0; call(M);
+        bool in_ok = same_bits(M, ref), out_ok = true;
+        for (Eigen::Index i = 0; i < len; i++) { const bool inside = i >= off && (i - off) % os < r; if (!inside && !same_elem(buf[(size_t) i], (S) (5000 + 3 * i))) out_ok = false; }
+        report("Map-outer-stride", in_ok, out_ok, os);
+    }
+}
+
+// first input of a reuse history: dense, O(1) entries (the class reads its Hessenberg / tridiagonal part); size by `kind`
+template <class S> static Eigen::Matrix<S, Eigen::Dynamic, Eigen::Dynamic> first_input(int n1, Rng& g) {
+    Eigen::Matrix<S, Eigen::Dynamic, Eigen::Dynamic> H(n1, n1); for (int j = 0; j < n1; j++) for (int i = 0; i < n1; i++) H(i, j) = (S) (4 * g.sym()); return H;
+}
+static const char* HIST[] = {"same-size", "smaller", "larger", "preallocated-other-size"};
+static int hist_size(int n, int lo, int kind) { return kind == 0 ? n : kind == 1 ? (n - 1 >= lo ? n - 1 : n + 1) : n + 3; }
+static long HISTCORR[3] = {0, 0, 0};       // per class: which double cases also become a correspondence request
+
 template <class S, class QR> static void run_givens_qr(const Case& c, bool tridiag, bool corr) {
     typedef Eigen::Matrix<S, Eigen::Dynamic, Eigen::Dynamic> SMat; typedef Eigen::Matrix<S, Eigen::Dynamic, 1> SVec;
     const int n = c.n; const LD EPS_S = std::numeric_limits<S>::epsilon(), MIN_S = std::numeric_limits<S>::min();
@@ -89,8 +212,42 @@ template <class S, class QR> static void run_givens_qr(const Case& c, bool tridi
     SVec qy = p; qr.apply_QY(qy); SVec qty = p; qr.apply_QtY(qty);
     SMat QYm = Pm; qr.apply_QY(QYm); SMat QtYm = Pm; qr.apply_QtY(QtYm);
     SMat YQ = Pt; qr.apply_YQ(YQ); SMat YQt = Pt; qr.apply_YQt(YQt);
+    const std::string reqstr = c.cls + Bits<S>::suffix() + " " + str(n) + " " + Bits<S>::of(Hs) + " " + Bits<S>::one(shift) + " " + Bits<S>::of(Pm);
     if (corr)
-        OUT->corr(c.cls + Bits<S>::suffix() + " " + str(n) + " " + Bits<S>::of(Hs) + " " + Bits<S>::one(shift) + " " + Bits<S>::of(Pm), Bits<S>::of(R) + " " + Bits<S>::of(cs) + " " + Bits<S>::of(sn) + " " + Bits<S>::of(D) + " " + Bits<S>::of(qy) + " " + Bits<S>::of(qty) + " " + Bits<S>::of(QYm) + " " + Bits<S>::of(QtYm) + " " + Bits<S>::of(YQ) + " " + Bits<S>::of(YQt));
+        OUT->corr(reqstr, Bits<S>::of(R) + " " + Bits<S>::of(cs) + " " + Bits<S>::of(sn) + " " + Bits<S>::of(D) + " " + Bits<S>::of(qy) + " " + Bits<S>::of(qty) + " " + Bits<S>::of(QYm) + " " + Bits<S>::of(QtYm) + " " + Bits<S>::of(YQ) + " " + Bits<S>::of(YQt));
+    // ---- (c) argument-buffer independence: destination states, views, object reuse (bit for bit against the fresh results above)
+    {
+        Rng gb = buf_rng(c, tridiag ? 2 : 1);
+        dest_states<S>(c, "matrix_QtHQ", [&](SMat& d) { qr.matrix_QtHQ(d); }, D, gb);
+        dest_states<S>(c, "matrix_R", [&](SMat& d) { d = qr.matrix_R(); }, R, gb);
+        cross_class<S>(c, [&](SMat& d) { qr.matrix_QtHQ(d); }, D, gb);
+        view_states<S>(c, "apply_QY", [&](auto&& Y) { qr.apply_QY(Y); }, Pm, QYm, gb);
+        view_states<S>(c, "apply_QtY", [&](auto&& Y) { qr.apply_QtY(Y); }, Pm, QtYm, gb);
+        view_states<S>(c, "apply_YQ", [&](auto&& Y) { qr.apply_YQ(Y); }, Pt, YQ, gb);
+        view_states<S>(c, "apply_YQt", [&](auto&& Y) { qr.apply_YQt(Y); }, Pt, YQt, gb);
+        const bool fixedcase = c.pat.rfind("fixed", 0) == 0; long& hc = HISTCORR[tridiag ? 1 : 0];
+        for (int kind = 0; kind < 4; kind++) {
+            const int n1 = hist_size(n, 2, kind);
+            std::unique_ptr<QR> q; SMat H1; S s1 = 0;
+            if (kind < 3) {      // a first factorization, queried, then compute() again on the same object
+                H1 = first_input<S>(n1, gb); s1 = (S) gb.sym(); q.reset(new QR(H1, s1));
+                SMat t; q->matrix_QtHQ(t); t = q->matrix_R(); SVec v = H1.col(0); q->apply_QY(v); q->apply_QtY(v); SMat y = H1.topRows(std::min(n1, 2)); q->apply_YQ(y); q->apply_YQt(y);
+            } else q.reset(new QR((Eigen::Index) n1));      // the preallocating constructor, for another size
+            q->compute(Hs, shift);
+            SMat R2 = q->matrix_R(), D2; q->matrix_QtHQ(D2); SVec cs2 = SpectraVerifAccess::cosv(*q), sn2 = SpectraVerifAccess::sinv(*q);
+            SVec qy2 = p; q->apply_QY(qy2); SVec qty2 = p; q->apply_QtY(qty2); SMat QYm2 = Pm; q->apply_QY(QYm2); SMat QtYm2 = Pm; q->apply_QtY(QtYm2);
+            SMat YQ2 = Pt; q->apply_YQ(YQ2); SMat YQt2 = Pt; q->apply_YQt(YQt2);
+            const char* bad = !same_bits(R2, R) ? "matrix_R" : !same_bits(D2, D) ? "matrix_QtHQ" : !same_bits(cs2, cs) || !same_bits(sn2, sn) ? "rotations" : !same_bits(qy2, qy) ? "apply_QY(vector)"
+                            : !same_bits(qty2, qty) ? "apply_QtY(vector)" : !same_bits(QYm2, QYm) ? "apply_QY" : !same_bits(QtYm2, QtYm) ? "apply_QtY" : !same_bits(YQ2, YQ) ? "apply_YQ" : !same_bits(YQt2, YQt) ? "apply_YQt" : nullptr;
+            OUT->count("oracle_reuse"); OUT->count("reuse_" + tg + "_" + HIST[kind]);
+            if (bad) buf_fail(c, "reuse", std::string("compute() on an object with the history `") + HIST[kind] + "` (first size " + str(n1) + "): " + bad + " differs from a fresh object's", kv("history", HIST[kind]) + kv("query", bad));
+            if (corr && std::is_same<S, double>::value && kind < 3 && (fixedcase || (hc % 4 == 0 && kind == (hc / 4) % 3))) {
+                OUT->count("corr_history_" + c.cls + "_" + HIST[kind]);
+                OUT->corr(c.cls + "h " + str(n1) + " " + Bits<S>::of(H1) + " " + Bits<S>::one(s1) + " " + reqstr, Bits<S>::of(R2) + " " + Bits<S>::of(cs2) + " " + Bits<S>::of(sn2) + " " + Bits<S>::of(D2) + " " + Bits<S>::of(qy2) + " " + Bits<S>::of(qty2) + " " + Bits<S>::of(QYm2) + " " + Bits<S>::of(QtYm2) + " " + Bits<S>::of(YQ2) + " " + Bits<S>::of(YQt2));
+            }
+        }
+        if (std::is_same<S, double>::value) hc++;
+    }
     // branch tags
     for (int i = 0; i < n - 1; i++) {
         if (sn[i] == 0) OUT->count(tg + "_rot_identity(y=0)");
@@ -143,13 +300,42 @@ template <class S> static void run_dsqr(const Case& c, bool corr) {
     const std::string tg = std::string("dsqr") + (std::string(TName<S>::n()) == "double" ? "" : std::string("<") + TName<S>::n() + ">");
     SMat Hs = c.H.cast<S>(); S sh_s = (S) c.s, sh_t = (S) c.t;
     Spectra::DoubleShiftQR<S> qr(Hs, sh_s, sh_t);
-    SMat D(n, n); qr.matrix_QtHQ(D);
+    SMat D; qr.matrix_QtHQ(D);
     std::vector<int> nr = SpectraVerifAccess::nr(qr); SMat U = SpectraVerifAccess::u(qr);
     for (int i = 0; i < n; i++) if (nr[i] == 1) U.col(i).setZero();     // never written by the class (uninitialised memory)
     SMat Pm = c.P.cast<S>(); SVec p = Pm.col(0); SMat Pt = Pm.transpose();
     SVec qty = p; qr.apply_QtY(qty); SMat YQ = Pt; qr.apply_YQ(YQ);
-    if (corr) { std::string nrs; for (int i = 0; i < n; i++) { if (i) nrs += ' '; nrs += str(nr[i]); }
-        OUT->corr(c.cls + Bits<S>::suffix() + " " + str(n) + " " + Bits<S>::of(Hs) + " " + Bits<S>::one(sh_s) + " " + Bits<S>::one(sh_t) + " " + Bits<S>::of(Pm), Bits<S>::of(D) + " " + nrs + " " + Bits<S>::of(U) + " " + Bits<S>::of(qty) + " " + Bits<S>::of(YQ)); }
+    auto nrstr = [&](const std::vector<int>& v) { std::string nrs; for (int i = 0; i < n; i++) { if (i) nrs += ' '; nrs += str(v[i]); } return nrs; };
+    const std::string reqstr = c.cls + Bits<S>::suffix() + " " + str(n) + " " + Bits<S>::of(Hs) + " " + Bits<S>::one(sh_s) + " " + Bits<S>::one(sh_t) + " " + Bits<S>::of(Pm);
+    if (corr) OUT->corr(reqstr, Bits<S>::of(D) + " " + nrstr(nr) + " " + Bits<S>::of(U) + " " + Bits<S>::of(qty) + " " + Bits<S>::of(YQ));
+    // ---- (c) argument-buffer independence: destination states, views, object reuse (bit for bit against the fresh results above)
+    {
+        Rng gb = buf_rng(c, 3);
+        dest_states<S>(c, "matrix_QtHQ", [&](SMat& d) { qr.matrix_QtHQ(d); }, D, gb);
+        cross_class<S>(c, [&](SMat& d) { qr.matrix_QtHQ(d); }, D, gb);
+        view_states<S>(c, "apply_YQ", [&](auto&& Y) { qr.apply_YQ(Y); }, Pt, YQ, gb);
+        const bool fixedcase = c.pat.rfind("fixed", 0) == 0; long& hc = HISTCORR[2];
+        for (int kind = 0; kind < 4; kind++) {
+            const int n1 = hist_size(n, 3, kind);
+            std::unique_ptr<Spectra::DoubleShiftQR<S>> q; SMat H1; S s1 = 0, t1 = 0;
+            if (kind < 3) {
+                H1 = first_input<S>(n1, gb); s1 = (S) gb.sym(); t1 = (S) gb.sym(); q.reset(new Spectra::DoubleShiftQR<S>(H1, s1, t1));
+                SMat t; q->matrix_QtHQ(t); SVec v = H1.col(0); q->apply_QtY(v); SMat y = H1.topRows(2); q->apply_YQ(y);
+            } else q.reset(new Spectra::DoubleShiftQR<S>((Eigen::Index) n1));
+            q->compute(Hs, sh_s, sh_t);
+            SMat D2; q->matrix_QtHQ(D2); std::vector<int> nr2 = SpectraVerifAccess::nr(*q); SMat U2 = SpectraVerifAccess::u(*q);
+            for (int i = 0; i < n; i++) if (nr2[i] == 1) U2.col(i).setZero();
+            SVec qty2 = p; q->apply_QtY(qty2); SMat YQ2 = Pt; q->apply_YQ(YQ2);
+            const char* bad = !same_bits(D2, D) ? "matrix_QtHQ" : nr2 != nr ? "reflector row counts" : !same_bits(U2, U) ? "reflectors" : !same_bits(qty2, qty) ? "apply_QtY" : !same_bits(YQ2, YQ) ? "apply_YQ" : nullptr;
+            OUT->count("oracle_reuse"); OUT->count("reuse_" + tg + "_" + HIST[kind]);
+            if (bad) buf_fail(c, "reuse", std::string("compute() on an object with the history `") + HIST[kind] + "` (first size " + str(n1) + "): " + bad + " differs from a fresh object's", kv("history", HIST[kind]) + kv("query", bad));
+            if (corr && std::is_same<S, double>::value && kind < 3 && (fixedcase || (hc % 4 == 0 && kind == (hc / 4) % 3))) {
+                OUT->count(std::string("corr_history_dsqr_") + HIST[kind]);
+                OUT->corr("dsqrh " + str(n1) + " " + Bits<S>::of(H1) + " " + Bits<S>::one(s1) + " " + Bits<S>::one(t1) + " " + reqstr, Bits<S>::of(D2) + " " + nrstr(nr2) + " " + Bits<S>::of(U2) + " " + Bits<S>::of(qty2) + " " + Bits<S>::of(YQ2));
+            }
+        }
+        if (std::is_same<S, double>::value) hc++;
+    }
     for (int i = 0; i < n; i++) OUT->count(tg + "_nr" + str(nr[i]));
     // block sizes from the input's deflation pattern as the class sees it
     { S near0 = std::numeric_limits<S>::min() * S(10), epsabs = near0 * (n / std::numeric_limits<S>::epsilon()); int start = 0;
@@ -278,6 +464,9 @@ static void fixed_cases(std::vector<Case>& out) {
         // subdiagonal zeroed, so the returned "Q'HQ" is not similar to H relative to ||H||.
         Case c; c.cls = "dsqr"; c.n = 3; c.pat = "fixed-tiny-scale"; c.H = Mat(3, 3); c.H << 1, 2, 3, 4, 5, 6, 0, 7, 8; c.H *= 1e-295; c.s = 1e-295; c.t = 0;
         c.P = Mat(3, 3); c.P << 0.5, 1, -1, -0.25, 2, 0.5, 1, 3, 0.25; out.push_back(c); }
+    {   // degenerate size n = 1 (UpperHessenbergQR only: outside the property's n >= 2, but every method is well defined and the reuse
+        // histories shrink an object to it; TridiagQR's compute() asks for a vector of size -1 and DoubleShiftQR::apply_YQ indexes column -1 there)
+        Case c; c.cls = "hqr"; c.n = 1; c.pat = "fixed-n1"; c.H = Mat(1, 1); c.H << 3.0; c.s = 1.25; c.P = Mat(1, 3); c.P << 0.5, -2, 1; out.push_back(c); }
     for (int n : {2, 3, 5, 7, 11}) for (const char* cls : {"hqr", "tqr", "dsqr"}) {
         if (std::string(cls) == "dsqr" && n < 3) continue;
         Case c; c.cls = cls; c.n = n; c.pat = "fixed-tridiag121"; c.H = Mat::Zero(n, n);
